@@ -110,4 +110,28 @@ def marketsBalances (S : Setup) (w : World) : List MarketNV :=
 def marketsValuation (S : Setup) : Valuation World :=
   { quote := S.quote, eff := marketsEff S, prices := S.prices, balances := marketsBalances S, wallet := fun w => w.wallet }
 
+/-! ### the script's outcome flags against the market models
+
+  `Demeter/Actuator.lean` takes "does the market accept this operation" from the script (`OpSpec.ok`); the market models decide it from the
+  state.  A trace is *coherent* with the models when the two agree at every operation: an accepted one (`opOk`, `opFree … true`) does not
+  raise in the world the earlier calls produced, a refused one (`opRej … false`, `opFree … false`) does. -/
+
+/-- does the operation labelled `tag` on market `m` return normally in the world `w` (`none`: the label decodes to nothing) -/
+def callOk (S : Setup) (w : World) (m : Nat) (tag : String) : Option Bool :=
+  if m = 0 then
+    (S.uniOp tag).map fun op => match (Uni.step S.K S.pool S.minError w.uniIn op).1 with | .ok _ => true | .error _ => false
+  else
+    (S.sqOp tag).map fun op => (Squeeth.step S.cx w.env w.sqIn op).err.isNone
+
+def evCoherent (S : Setup) (w : World) : Ev → Bool
+  | .opOk _ _ m tag => callOk S w m tag == some true
+  | .opRej _ _ m tag false => callOk S w m tag == some false
+  | .opFree _ _ m tag ok => callOk S w m tag == some ok
+  | _ => true
+
+/-- every operation of the trace has, in the world it is issued in, the outcome the trace records -/
+def coherent (S : Setup) : List Ev → World → Bool
+  | [], _ => true
+  | e :: l, w => evCoherent S w e && coherent S l (marketsEff S e w)
+
 end Demeter.Core
